@@ -1,6 +1,6 @@
 """C02 - every waiter gets an event's outcome exactly once; failures are never lost (DESIGN.md C02)."""
-from ..core import digest_of
-from ..kprog import Prof, gen_program, setup_world, drive, excerpt
+from ..core import digest_of, san
+from ..kprog import Prof, gen_program, setup_world, drive, excerpt, rv
 
 ID = 'C02'
 TIERS = {'quick': {'runs': 24000, 'budget_s': 30}, 'thorough': {'runs': 1500000, 'budget_s': 600}}
@@ -66,14 +66,14 @@ def _values(case):
         for i, op in enumerate(ops):
             k = op.get('op')
             if k in ('timeout', 'fire'):
-                vals['%s.%d' % (pid, i)] = op.get('v')
+                vals['%s.%d' % (pid, i)] = san(rv(op.get('v')))
             elif k == 'spawn':
                 walk(op.get('ops', []), op['id'])
     for it in case.get('setup', []):
         if it.get('k') == 'proc':
             walk(it.get('ops', []), it['id'])
         elif it.get('k') == 'timeout':
-            vals[it['id']] = it.get('v')
+            vals[it['id']] = san(rv(it.get('v')))
     return vals
 
 
